@@ -14,8 +14,18 @@ def check_layout(src, cls, fields):
 
 
 def mk(src, cls, tag=None, **fields):
-    check_layout(src, cls, fields.keys())
-    return Obj(cls, dict(fields), owner=EXT, tag=tag or cls)
+    """record with the source's field layout; fields the builder does not know are accepted when they have a constant default"""
+    import ast as _ast
+    spec = src.attrs_fields(cls)
+    names = [f[0] for f in spec]
+    unknown = [k for k in fields if k not in names]
+    if unknown: raise Unsupported("field layout of %s changed: builder supplies %s, source has %s" % (cls, unknown, names))
+    vals = {}
+    for (name, d, v, c, has) in spec:
+        if name in fields: vals[name] = fields[name]
+        elif has and (d is None or isinstance(d, _ast.Constant)): vals[name] = d.value if d is not None else None
+        else: raise Unsupported("field layout of %s changed: source has %s, builder has %s" % (cls, names, list(fields)))
+    return Obj(cls, vals, owner=EXT, tag=tag or cls)
 
 
 def component(src, t, vp_type='antoine', uniquac=True):
